@@ -20,15 +20,15 @@ claim("C09", "other",
       "trusted: syntactic set-type inference (sources listed in evidence); not decided: equality of generated text across runs",
       "dataflow/taint analysis over the AST (set-type inference, global-mutable-state to sink)", "DESIGN.md §3/C09")
 claim("C11", "other",
-      "Thin: constants of is_power_of_two / is_one_or_three_times_power_of_two / next() are constant-evaluated at every definition site (Python precedence included), compared with the documented formulas and IEEE precisions; kernel shape L=P*x, R=Q*x, D=L-R. ULP bounds of 3Sum/4Sum/dot2/FMA are not decided.",
-      "trusted: formulas from Graillat-Muller; only the named constants are decided",
-      "constant evaluation of table/constant expressions over the AST", "DESIGN.md §3/C11")
+      "Thin: constants of is_power_of_two / is_one_or_three_times_power_of_two are evaluated at every definition site per format under a model of numpy.finfo (roles by return position / dict key, never by local spelling) and compared with the documented formulas; the test kernel is extracted as dataflow and must be (P*x - Q*x) == x (!= iff invert); next(): multiplier 1 - 2**-p per format and direction of the step decided by evaluating the selected arm; guarded Dekker product behind the FMA variants. ULP bounds of 3Sum/4Sum/dot2/FMA are not decided.",
+      "trusted: formulas from Graillat-Muller; IEEE-754 parameters; only the named constants and kernels are decided",
+      "constant evaluation over the AST under a finfo model; symbolic dataflow extraction with normal forms", "DESIGN.md §3/C11")
 claim("C13", "other",
-      "Partial: (a) every literal format table keyed by numpy.float16/32/64 in utils.py and the mpmath backend's precision/exponent tables are checked against IEEE-754 binary16/32/64 and each other; (b) float2fraction's decoding of the IEEE fields is proved exact for every finite bit pattern of every format by symbolic power-of-two algebra per value class (zero, subnormal, normal with negative / non-negative exponent, both signs); (c) float2mpf's man*2**exp bookkeeping; (d) expansion/float conversions keep the target dtype. mpmath's own arithmetic and fraction2float's rounding are not decided.",
+      "Partial: (a) every literal format table keyed by numpy.float16/32/64 in utils.py and the mpmath backend's precision/exponent tables against IEEE-754 binary16/32/64 and each other; (b) float2fraction's numpy.floating branch is interpreted on an abstract float whose bit pattern is the field list [fraction|exponent|sign] with symbolic field values: on every feasible path denoting a finite value num/denom equals the IEEE value identically in the field symbols, i.e. exactness for every finite bit pattern of every format; (c) float2mpf interpreted on a symbolic frexp result: man*2**exp == mantissa*2**exponent and normalisation to the float's own precision; (d) expansion/float conversions keep the target dtype. mpmath's own arithmetic and fraction2float's rounding are not decided.",
       "trusted: IEEE-754 parameters, numpy's integer view of the bit pattern, Python big-integer arithmetic; not decided: rounding in the inverse direction",
-      "constant evaluation of literal tables plus exact symbolic algebra over sums of monomials times 2**(affine exponent), per branch of the AST", "DESIGN.md §3/C13")
+      "abstract interpretation of the function's AST over symbolic bit fields, a path-sensitive linear-inequality domain (Fourier-Motzkin entailment) and an exact power-of-two algebra; constant evaluation of tables", "DESIGN.md §3/C13")
 claim("C15", "other",
-      "Partial: sentinel (UNSPECIFIED) resolution yields the caller's value or the default and never the sentinel; no possibly-unspecified option reaches a truth test or attribute; extra-precision options are applied by backend_context and all backend evaluations run inside it; mpf2float's tables and flush-keyed threshold. Rounding of values is not decided.",
+      "Partial: sentinel (UNSPECIFIED) resolution yields the caller's value or the default and never the sentinel; no possibly-unspecified option reaches a truth test or attribute; extra-precision options are applied by backend_context and all backend evaluations run inside it; mpf2float's tables and flush-keyed threshold, signed underflow/overflow results, and on every path the underflow/overflow tests read the exponent and bit count of the value rounded to the target precision. Rounding of values is not decided.",
       "trusted: IEEE-754 parameters; not decided: numeric rounding behaviour of mpf2float",
       "custom AST checker: conditional-expression shapes, dominance of resolution over truth tests, with-block containment", "DESIGN.md §3/C15")
 claim("C16", "other",
@@ -36,13 +36,13 @@ claim("C16", "other",
       "trusted: induction hypothesis for recursive/sibling calls on slices; not decided: the rest of the arithmetic, multiply/add/divmod/taylorat algebra",
       "path enumeration + symbolic (affine) index-interval coverage", "DESIGN.md §3/C16")
 claim("C17", "other",
-      "Thin: the active double-word ln2 constants (branch chosen by constant-evaluating the if-chain) satisfy hi+lo ~ ln2 to half an ulp of lo and leave enough trailing zeros for exact k*hi, in exact rational arithmetic per format; scalar constants correctly rounded; reduction formula matched. Reconstruction bounds on inputs are not decided.",
-      "trusted: ln2 to 100 digits; struct rounding of literals",
-      "constant evaluation + exact rational arithmetic on literals", "DESIGN.md §3/C17")
+      "Thin: the dataflow of argument_reduction_exponent is extracted symbolically (constants function inlined): k = floor(x*INV + 1/2), r = x - k*HI, c = -(k*LO) as normal forms, where INV/HI/LO are whatever constants occupy those places; per format (dtype switch resolved) |HI+LO-ln2| <= ulp(LO)/2, HI short enough for exact k*HI, INV and the returned scalars correctly rounded, in exact rational arithmetic. Reconstruction bounds on inputs and the trigonometric reduction are not decided.",
+      "trusted: ln 2 and 1/ln 2 to 100 digits; only the named constants and the formula are decided",
+      "symbolic dataflow extraction with normal forms; constant evaluation in exact rational arithmetic", "DESIGN.md §3/C17")
 claim("C19", "other",
-      "Partial: interval analysis of the sample count at every `// (num-1)` divisor and negative index of real_samples from dominating facts; product generators forward every shared option and axis k's size/bounds to the k-th inner call. Properties of returned arrays are not decided.",
+      "Partial: interval analysis of the sample count at every `// (num-1)` divisor and negative index of real_samples from dominating facts; no path that avoids the include_subnormal bound adjustment returns a value built from the bounds; product generators forward every shared option and axis k's size/bounds to the k-th inner call. Properties of returned arrays are not decided.",
       "trusted: dominance in structured code; 4 known findings (unguarded divisors/index) are listed in known_findings.json",
-      "interval analysis over dominating conditions + call-site argument forwarding check", "DESIGN.md §3/C19")
+      "interval analysis over dominating conditions; path enumeration with def-use (must-pass-through); call-site argument forwarding check", "DESIGN.md §3/C19")
 claim("C10", "other",
       "Decides conformance of every copy of the error-free transformations (fpa, algorithms, utils; all fast/scale/fix_overflow/default-C option combinations) to catalogued proven algorithms by symbolic dataflow extraction and comparison of normal forms under exact algebra; splitter constants 2^ceil(p/2)+1 at all sites; option plumbing of apmath wrappers. Exactness is the cited theorem, not re-proved; domains not decided.",
       "trusted: catalogue sa/oracles/eft_reference.py with citations; exactness of normalising identities in RN arithmetic; power-of-two splitter variant accepted without citation",
@@ -64,9 +64,9 @@ claim("C12", "other",
       "trusted: package tracer as front end; 2Sum/Fast2Sum exactness absent overflow; fast mode under its documented magnitude-ordering precondition",
       "abstract interpretation of the expression IR in an affine-equality (Karr-style) domain with case splitting; abstract interpretation of the Python source over exact polynomials", "DESIGN.md §3/C12")
 claim("C14", "other",
-      "Thin: structural clauses of the ULP metric decided on the source of utils.diff_ulp/ulp: the scalar branch is invariant under exchanging its arguments (canonical form modulo commutativity and the |a-b| idiom); complex distance is max over paired components; sequence branches pair positionally and forward both options; signs are taken before abs() with sign(0)=0 and integer views of absolute values; out-of-range marker 2**bits; ulp(x)=ldexp(1, frexp exponent + negep). That the value equals the number of representable steps, chain additivity and the flush remapping are numeric and not decided.",
-      "only the named structural clauses are decided; same-type arguments assumed (x.dtype and y.dtype identified)",
-      "AST canonicalisation and swap-invariance check; call-site argument pairing", "DESIGN.md §3/C14")
+      "Partial (strong for finite scalars): the scalar branch of utils.diff_ulp is interpreted for every (class, sign) combination of its arguments with the lattice ordinals of |x|, |y| as integer symbols, both flush modes and both equal_nan modes, three formats; on every feasible path the result equals |pos(x) - pos(y)| (pos = signed ordinal, with flushing the documented collapse map), non-finite pairs give 0 or 2**bits: this is the integer distance on the float lattice (zero iff equal with +-0 identified, symmetry, k-th neighbour at distance k, chain additivity across zero and binades). utils.ulp is interpreted once per (format, sign, binade): spacing of the binade for every finite float, smallest subnormal at 0, inf/nan. Complex distance is max over paired components; sequence branches pair positionally and forward options.",
+      "trusted: the integer view of |x| numbers the float lattice monotonically without gaps (IEEE-754); not decided: array broadcasting beyond positional pairing",
+      "abstract interpretation of the function's AST in a path-sensitive linear-inequality domain (case split per class/sign, Fourier-Motzkin entailment) and per-binade abstract values", "DESIGN.md §3/C14")
 claim("C02", "other",
       "Partial (necessary conditions of the ULP clause, decided for every float of float32 and float64, not a sample): the expanded expression DAG of each real algorithm (asin, acos, asinh, acosh, absolute, square, hypot) is interpreted over floating-point intervals with an adaptive partition of the whole float line (plane for hypot); on every box inside the domain the result contains no NaN and lies within a relative bound (2**-8 quick, 2**-11 thorough; hypot 2**-3 / 2**-5) of the true function's range over the box, overflow accepted exactly where the true value overflows; outside the domain the result is NaN only; exact limits at +-0, +-inf and domain ends. The 4/5-ULP bounds and the 3-ULP rate are not decided.",
       "trusted: numpy IEEE arithmetic for interval end points, numpy long-double reference functions, library functions assumed within 4 ulp; not decided: accuracy below the stated relative bound",
